@@ -8,7 +8,7 @@ import (
 )
 
 // checkJSONErrorsAgainstParse compares the error objects of `klog json` with the error list
-// of a direct parse of the same text (line, column, length, title, details, file).
+// of a direct parse of the same text (line, column, length, title, details).
 func checkJSONErrorsAgainstParse(text, file string, arr []any) error {
 	_, _, errs := parser.NewSerialParser().Parse(text)
 	if len(errs) != len(arr) {
@@ -19,12 +19,12 @@ func checkJSONErrorsAgainstParse(text, file string, arr []any) error {
 		if !ok {
 			return fmt.Errorf("error %d is not an object", i)
 		}
-		if len(o.Keys) != 6 {
-			return fmt.Errorf("error %d has keys %v", i, o.Keys)
-		}
+		// line, column (the terminal report puts its first caret at Position(), i.e. column Position()+1),
+		// length and message as the error list (and thereby the terminal report, C10)
+		// has them; further keys (`file`, future ones) are not constrained by the property
 		if err := firstErr(
 			wantInt(o, "line", e.LineNumber()), wantInt(o, "column", e.Position()+1), wantInt(o, "length", e.Length()),
-			wantStr(o, "title", e.Title()), wantStr(o, "details", e.Details()), wantStr(o, "file", file),
+			wantStr(o, "title", e.Title()), wantStr(o, "details", e.Details()),
 		); err != nil {
 			return fmt.Errorf("error %d: %v", i, err)
 		}
